@@ -8,7 +8,7 @@
     not the property; the general [_partial] statements they sample are
     written out in the comments). *)
 From InvokeVerif Require Import Model.CollModel Spec.C10Spec Corr.C10Corr
-     Proofs.CollStrings Proofs.C17_path Proofs.C10_build Proofs.C10_names Proofs.C10_flat Proofs.C10_deep Proofs.C10_parser.
+     Proofs.CollStrings Proofs.C17_path Proofs.C10_build Proofs.C10_names Proofs.C10_flat Proofs.C10_deep Proofs.C10_token Proofs.C10_parser.
 
 (** Underscore/dash normalisation is consistent: idempotent, the later of two
     normalisations wins (so a name passed down through collections with
@@ -83,8 +83,17 @@ Proof. exact refuted_binding_alias. Qed.
     path; the flattened names pairwise distinct.  What is missing from full
     strength is exactly F-C10a, F-C10b and mixed auto-dash settings. *)
 Theorem C10_cli_iff_lookup_partial : forall c n,
-  deep_guard c = true -> name_ok (c_auto_dash c) n (model_nobs c n) = true.
+  deep_guard c = true -> n <> "" -> name_ok (c_auto_dash c) n (model_nobs c n) = true.
 Proof. exact deep_names_agree. Qed.
+
+(** ... and the whole judgement of a token ([token_ok], what the check applies
+    to every observed token): additionally `--help <token>` is offered for
+    exactly the accepted names and documents the task lookup returns, and the
+    invocation WITHOUT any task runs the task lookup of the empty name returns
+    (the default, through default sub-collections too) or nothing. *)
+Theorem C10_token_agreement_partial : forall c n,
+  deep_guard c = true -> token_ok (c_auto_dash c) n (model_nobs c n) = true.
+Proof. exact deep_tokens_agree. Qed.
 
 (** Ingredients, each general: [task_names] is plain prefixing/appending ... *)
 Theorem C10_task_names_is_flattening_partial : forall ad c,
@@ -121,8 +130,9 @@ Proof. exact ref_in_tn. Qed.
     names beyond the declared ones.) *)
 Theorem C10_cli_iff_lookup_flat_partial : forall cn tasks aliases dflt ad cfg n,
   flat_guard (Coll cn tasks aliases [] dflt ad cfg) = true ->
+  n <> "" ->
   name_ok ad n (model_nobs (Coll cn tasks aliases [] dflt ad cfg) n) = true.
-Proof. intros. apply flat_names_agree. assumption. Qed.
+Proof. intros. apply flat_names_agree; assumption. Qed.
 
 (** Any depth, the lookup half of the agreement, proved in general: for EVERY
     tree (any nesting, default tasks and default sub-collections at any level,
